@@ -1225,6 +1225,9 @@ struct TemplateCore {
                             }
                         }
                     }
+
+                    // Not a "{n}" with a matching sub-tag: only the brace itself is consumed.
+                    index = start;
                 }
 
                 ++index;
